@@ -141,6 +141,14 @@ fn to_maybe(h: &Handle) -> MaybeSignal<i64> {
     }
 }
 
+/// a comparator coarser than equality: "changed" iff the parity differs
+fn parity_changed(a: Option<&i64>, b: Option<&i64>) -> bool {
+    match (a, b) {
+        (Some(a), Some(b)) => (a % 2 == 0) != (b % 2 == 0),
+        _ => true,
+    }
+}
+
 fn id_ref(x: &i64) -> &i64 {
     x
 }
@@ -523,8 +531,10 @@ fn run_case(c: &Sexp, mask: u8) -> Sexp {
                 let f = move |_: Option<&i64>| run_body(i, &e, &lower);
                 match (flavor, cmp) {
                     (0, 0) => Handle::ArcMemo(ArcMemo::new(f)),
+                    (0, 2) => Handle::ArcMemo(ArcMemo::new_with_compare(f, parity_changed)),
                     (0, _) => Handle::ArcMemo(ArcMemo::new_with_compare(f, |_, _| true)),
                     (_, 0) => Handle::Memo(Memo::new(f)),
+                    (_, 2) => Handle::Memo(Memo::new_with_compare(f, parity_changed)),
                     (_, _) => Handle::Memo(Memo::new_with_compare(f, |_, _| true)),
                 }
             }
